@@ -27,7 +27,7 @@ ACQ = [
     datetime(2020, 3, 1, 18, 0, 0, tzinfo=timezone.utc),
     datetime(2023, 6, 15, 12, 0, 0, tzinfo=timezone.utc),
 ]
-OFFSETS = [0, 14 * 60, -12 * 60, 330]
+OFFSETS = [0, 14 * 60, -12 * 60, 330, -210]  # incl. half-hour offsets east (+05:30) and west (-03:30) of Greenwich
 # (country code, LONG_TERM_CAPITAL_GAINS for generic, expected period in days or None = never long-term)
 COUNTRIES: List[Tuple[str, Optional[int], Optional[int]]] = [
     ("us", None, 365),
@@ -47,7 +47,7 @@ COUNTRIES: List[Tuple[str, Optional[int], Optional[int]]] = [
 # ones), more generic thresholds, finer deltas around the threshold (milliseconds to hours), and gift / fee / transfer-fee disposals
 ACQ_THOROUGH = ACQ + [datetime(y, m, 1, 0, 0, 0, tzinfo=timezone.utc) for y in (2019, 2020) for m in range(1, 13)] + \
     [datetime(y, m, 1, 0, 0, 0, tzinfo=timezone.utc) - timedelta(seconds=1) for y in (2020, 2021) for m in range(1, 13)]
-OFFSETS_THOROUGH = OFFSETS + [540, -300, 60, -210]
+OFFSETS_THOROUGH = OFFSETS + [540, -300, 60, -570]
 COUNTRIES_THOROUGH = COUNTRIES + [("generic", n, n) for n in (2, 7, 90, 364, 1000)]
 
 
@@ -340,7 +340,7 @@ def main(tier: str, budget_s: Optional[float] = None) -> int:
                f"(250 ms .. 1 day on both sides, 0, 2P, 3P+1s) x {len(OFFSETS_THOROUGH) ** 2} UTC-offset pairs x {len(COUNTRIES_THOROUGH)} country configurations, the disposal rotating "
                "over sale / gift / fee / transfer fee, plus" if tier == "thorough" else
                "grid of 6 acquisition instants (leap day, year end) x 9 deltas around the threshold P (P-1d, P-12h, P-1s, P, P+1s, P+12h, P+1d, 0, 2P) "
-               "x 16 UTC-offset pairs x 10 country configurations, plus") + " a sale straddling the threshold over two lots, earn events, and the boundary through the "
+               "x 25 UTC-offset pairs x 10 country configurations, plus") + " a sale straddling the threshold over two lots, earn events, and the boundary through the "
             "spreadsheet front end with sub-second instants (P-0.5s, P-0.25s, P, P+0.5s) for lots bought with and without a crypto fee, and the LONG/SHORT "
             "column of rp2_full_report.ods / tax_report_us.ods read back for lots and disposals on both sides of the threshold; "
             "distinct by construction; non-trivial = within 12 hours of the threshold"
